@@ -50,6 +50,18 @@ def parseExtras (s : String) : Option (List Extra) :=
       let ks ← parseRefs ks
       let ss ← parseRefs ss
       some { keys := ks, signers := ss }
+    | [ks, ss, ns] => do
+      -- third field: RRSIGs over this RRset with an explicit signer name, `<keyref>/<n>,...`
+      let ks ← parseRefs ks
+      let ss ← parseRefs ss
+      let ns ← (ns.splitOn ",").mapM fun x =>
+        match x.splitOn "/" with
+        | [k, n] => do
+          let k ← parseRef k
+          let n ← n.toNat?
+          some ({ key := k, signer := n } : NamedSig)
+        | _ => none
+      some { keys := ks, signers := ss ++ namedSigners ns }
     | _ => none
 
 def insertBy {α : Type} (le : α → α → Bool) (a : α) : List α → List α
